@@ -123,6 +123,10 @@ auto('C15', 'exploration',
      'Hypothesis project models (all target kinds, generated sources, subdirs, subproject, project options, tests/benchmarks running a dumper, install rules) -> real meson setup; relational oracle between artefacts: intro-targets.json vs the statements of build.ninja read by an independent Ninja parser (filenames, compile inputs of the target\'s own objects, parameters, all-membership), intro-tests/benchmarks.json vs argv/env/suites observed under real `meson test`, intro-buildoptions.json vs get_option() messages, intro-installed / install_plan vs the tree real `meson install --destdir` creates (overall and per tag), intro-buildsystem_files.json vs the files the generator wrote',
      'No expected JSON is written by hand: every field is compared with another artefact of the same configuration. Installed build targets are represented by placeholder files (nothing is compiled). Fields without a counterpart (id, defined_in line numbers) are only sanity-checked.')
 
+auto('C17', 'exploration',
+     'Hypothesis source trees (targets with literal / variable / nested / shared source lists, other arguments carrying closed core-language expressions with every grouping trap) x 1-3 rewriter commands (JSON script mode and CLI), judged by an independent reading of the tree before and after (own lexer, parser, evaluator): touched files parse, the addressed value is exactly the requested one and `info` reports it, every statement outside the data flow of the addressed value is byte-identical, every other argument of a re-printed call evaluates to the value it had, inverse laws, failures leave all files untouched',
+     'Trusts harness/refmeson.py (reference reader/evaluator). The order of sources inside a target, indentation and comments inside a re-printed call, and where a new keyword is placed are not part of the property (Rewriter.md limitations). Five recorded findings (extra_files given as a string, backslash in command values, CLI boolean false, blank lines inside a triple-quoted string of a re-printed statement, file added to a list that only occurs in a condition) are excluded by construction and re-checked by probes.')
+
 NOT_YET = 'no check is registered for this property in this revision (see DESIGN.md section 8 for status)'
 
 
